@@ -286,6 +286,9 @@ Definition ante (sh : shape) (wired : bool) (c : fcfg) (s : st) (t : tx) : outco
       let payer := payer_of t in
       (* baseapp validateBasicTxMsgs *)
       if (is_nil ms || negb (forallb msg_valid ms))%bool then Err "validate basic"
+      (* SetUpContextDecorator installs a gas meter with the transaction's limit; the first store
+         read of CustodyDecorator (before ZeroGasMeterDecorator) exhausts a zero limit *)
+      else if t_gas t <=? 0 then Err "out of gas"
       else
       do _ <- custody_check c ms;
       (* ValidateBasicDecorator *)
